@@ -30,10 +30,15 @@ pub fn constants(
         let rpl = il::RefProgramLocation::new(function, rfl);
         result.insert(
             location.clone(),
+            // Predecessors which are unreachable from the entry have no state,
+            // and contribute nothing.
             rpl.backward()?
                 .into_iter()
                 .fold(Constants::new(), |c, location| {
-                    c.join(&constants[&location.into()])
+                    match constants.get(&location.into()) {
+                        Some(predecessor) => c.join(predecessor),
+                        None => c,
+                    }
                 }),
         );
     }
